@@ -207,7 +207,14 @@ func TestVerifC09Snapshot(t *testing.T) {
 				rt.Fatalf("%s %s: content differs from the reference: %s\ncase: %s", verifkit.Sig("content-differs-"+when), when, d, strings.Join(c.describe(), "\n"))
 			}
 		}
-		check("before-snapshot", true)
+		// Cache.Values sorts and de-duplicates the entries it touches, so a read before the snapshot
+		// changes what the snapshot finds; both histories (with and without a reader) are drawn.
+		if rapid.Bool().Draw(rt, "readBefore") {
+			check("before-snapshot", true)
+			cl("history:read-before-snapshot")
+		} else {
+			cl("history:no-read-before-snapshot")
+		}
 
 		cp := NewCompactor()
 		cp.Dir = dir
